@@ -94,6 +94,8 @@ class EnvScenario(StateScenario):
         sd = h["sd"]
         avoid_containers = "env-on-container-fields" in avoid
 
+        counter = [0]
+
         def decorate(node, top):
             if top:
                 node["env"] = rng.choice([None, True, True, "APP", "APP", False])
@@ -105,7 +107,8 @@ class EnvScenario(StateScenario):
                 if f["kind"] == "schema":
                     decorate(f, False)
                 elif f["kind"] not in ("configtype", "virtual", "method"):
-                    e = rng.choice([None, None, None, True, "NAMED_%s" % f["key"].upper(), False])
+                    counter[0] += 1
+                    e = rng.choice([None, None, None, True, "NAMED_%s_%d" % (f["key"].upper(), counter[0]), False])
                     if e is not None:
                         f.setdefault("o", {})["env"] = e
 
@@ -203,6 +206,7 @@ class EnvScenario(StateScenario):
             if val:
                 bound[path] = (name, val, model.norm(schema.node_at(st.sd, path), val, st.ctx))
         invalid = sorted(p for p, (_, _, r) in bound.items() if r == REJ)
+        unspecified = any(r == model.UNSPEC for _, _, r in bound.values())
         cfg, err = self._call(lambda: st.B.root())
         rec.log("build", sorted(env.items()), type(err).__name__ if err else "ok")
         rec.kind("build:" + ("invalid" if invalid else "ok"))
@@ -220,6 +224,10 @@ class EnvScenario(StateScenario):
                 rec.fail("C14/invalid", "C14/invalid-variable-wrong-exception/%s" % type(err).__name__, "construction raised %r" % (err,))
             if err.ref_path not in invalid:
                 rec.fail("C14/invalid", "C14/invalid-variable-error-names-other-field", "construction failed naming %r; invalid variables bind %r" % (err.ref_path, invalid))
+            st.cfgs = []
+            return
+        if err is not None and unspecified:
+            rec.probe("construction-unspecified-variable")
             st.cfgs = []
             return
         if err is not None:
